@@ -237,7 +237,7 @@ impl W {
     }
 
     pub fn mk_sub(&self, s: u8, id: u32, gate: u8, gate_all: bool, read_wh: u32) -> ScriptedSub {
-        ScriptedSub { ctx: self.ctx.clone(), store: s, id, gate, gate_all, read_wh, counter: None, unsub_counter: None, hook: None, panic_on_unsub: std::sync::atomic::AtomicBool::new(false) }
+        ScriptedSub { ctx: self.ctx.clone(), store: s, id, gate, gate_all, read_wh, counter: None, unsub_counter: None, hook: None, unsub_gate: NOGATE, panic_on_unsub: std::sync::atomic::AtomicBool::new(false) }
     }
 
     /// add_subscriber with a fresh scripted direct subscriber
